@@ -95,7 +95,10 @@ func TestVerif_C27(t *testing.T) {
 			peer := peers[rng.Intn(len(peers))]
 			prog := uint32(100003 + rng.Intn(3))
 			pv := uint32(1 + rng.Intn(3))
-			prot := []uint32{6, 17}[rng.Intn(2)]
+			prot := []uint32{6, 17, 6, 17, 6, 17, 132, 33}[rng.Intn(8)]
+			if prot != 6 && prot != 17 {
+				vers = 2 // SCTP, DCCP: only the version-2 procedures can name such a protocol
+			}
 			port := uint32(1 + rng.Intn(65535))
 			shape := []string{"valid", "valid", "valid", "ipv6-uaddr", "malformed", "truncated"}[rng.Intn(6)]
 			netid := map[uint32]string{6: "tcp", 17: "udp"}[prot]
@@ -243,23 +246,8 @@ func TestVerif_C27(t *testing.T) {
 						fail(fmt.Sprintf("C27/dump-result-undecodable/vers=%d", vers), op+": "+derr.Error())
 						break
 					}
-					got := map[vfPmKey]uint32{}
-					for _, e := range ents {
-						if vers != 2 {
-							e.Prot = map[string]uint32{"tcp": 6, "udp": 17, "tcp6": 6, "udp6": 17}[e.Netid]
-							e.Port, _ = vfUaddrPort(e.Addr)
-						}
-						got[vfPmKey{e.Prog, e.Vers, e.Prot}] = e.Port
-					}
-					if len(got) != len(model) || len(ents) != len(model) {
-						fail(fmt.Sprintf("C27/dump-disagrees-with-registry/vers=%d", vers), fmt.Sprintf("%s: dump has %d entries, registry %d", op, len(ents), len(model)))
-					} else {
-						for k, p := range model {
-							if got[k] != p {
-								fail(fmt.Sprintf("C27/dump-disagrees-with-registry/vers=%d", vers), fmt.Sprintf("%s: key %v dump port %d registry %d", op, k, got[k], p))
-								break
-							}
-						}
+					if why := vfC27DumpAgrees(vers, ents, model); why != "" {
+						fail(fmt.Sprintf("C27/dump-disagrees-with-registry/vers=%d", vers), op+": "+why)
 					}
 					out = fmt.Sprintf("entries=%d", min64i(len(ents), 3))
 				}
@@ -468,17 +456,8 @@ func vfC27ReadBack(pm *Portmapper, key vfPmKey, xid uint32) string {
 		if derr != nil {
 			return fmt.Sprintf("dump-v%d: undecodable: %v", vers, derr)
 		}
-		if len(ents) != len(reg) {
-			return fmt.Sprintf("dump-v%d: %d entries, registry has %d", vers, len(ents), len(reg))
-		}
-		for _, e := range ents {
-			if vers != 2 {
-				e.Prot = map[string]uint32{"tcp": 6, "udp": 17, "tcp6": 6, "udp6": 17}[e.Netid]
-				e.Port, _ = vfUaddrPort(e.Addr)
-			}
-			if p, ok := reg[vfPmKey{e.Prog, e.Vers, e.Prot}]; !ok || p != e.Port {
-				return fmt.Sprintf("dump-v%d: reports (%d,%d,%d) -> %d, registry says %d (present=%v)", vers, e.Prog, e.Vers, e.Prot, e.Port, p, ok)
-			}
+		if why := vfC27DumpAgrees(vers, ents, reg); why != "" {
+			return fmt.Sprintf("dump-v%d: %s", vers, why)
 		}
 	}
 	body, e := call(2, 3, (&xdrw.W{}).U32(key.prog).U32(key.vers).U32(key.prot).U32(0).B)
@@ -489,6 +468,9 @@ func vfC27ReadBack(pm *Portmapper, key vfPmKey, xid uint32) string {
 		return fmt.Sprintf("getport: answered %d (%v), registry has %d", v, derr, reg[key])
 	}
 	netid := map[uint32]string{6: "tcp", 17: "udp"}[key.prot]
+	if netid == "" {
+		return "" // no netid names this protocol: GETADDR cannot ask for it
+	}
 	body, e = call(3, 3, (&xdrw.W{}).U32(key.prog).U32(key.vers).Str(netid).Str("").Str("").B)
 	if e != "" {
 		return "getaddr: " + e
@@ -497,6 +479,56 @@ func vfC27ReadBack(pm *Portmapper, key vfPmKey, xid uint32) string {
 	got, ok := vfUaddrPort(sv)
 	if want := reg[key]; derr != nil || want == 0 && sv != "" || want != 0 && (!ok || got != want) {
 		return fmt.Sprintf("getaddr: answered %q (%v), registry has port %d", sv, derr, want)
+	}
+	return ""
+}
+
+// vfC27DumpAgrees compares a decoded DUMP with the registry. The version-2 list carries protocol
+// numbers and must be the registry exactly. The rpcbind lists carry netids: every tcp/udp
+// registration must appear exactly once with its port; a registration of another protocol, which no
+// netid of this server names, may be left out or reported under whatever netid the server picks (it is
+// matched by program, version and port) - but nothing else may appear.
+func vfC27DumpAgrees(vers uint32, ents []rfc.PmapEntry, reg map[vfPmKey]uint32) string {
+	if vers == 2 {
+		if len(ents) != len(reg) {
+			return fmt.Sprintf("%d entries, registry has %d", len(ents), len(reg))
+		}
+		seen := map[vfPmKey]bool{}
+		for _, e := range ents {
+			k := vfPmKey{e.Prog, e.Vers, e.Prot}
+			if p, ok := reg[k]; !ok || p != e.Port || seen[k] {
+				return fmt.Sprintf("reports (%d,%d,%d) -> %d, registry says %d (present=%v, repeated=%v)", e.Prog, e.Vers, e.Prot, e.Port, p, ok, seen[k])
+			}
+			seen[k] = true
+		}
+		return ""
+	}
+	if len(ents) > len(reg) {
+		return fmt.Sprintf("%d entries, registry has %d", len(ents), len(reg))
+	}
+	seen := map[vfPmKey]bool{}
+	for _, e := range ents {
+		prot := map[string]uint32{"tcp": 6, "udp": 17, "tcp6": 6, "udp6": 17}[e.Netid]
+		port, _ := vfUaddrPort(e.Addr)
+		k := vfPmKey{e.Prog, e.Vers, prot}
+		if p, ok := reg[k]; ok && p == port && !seen[k] {
+			seen[k] = true
+			continue
+		}
+		other := false
+		for rk, rp := range reg {
+			if rk.prot != 6 && rk.prot != 17 && rk.prog == e.Prog && rk.vers == e.Vers && rp == port {
+				other = true
+			}
+		}
+		if !other {
+			return fmt.Sprintf("reports (%d,%d,%q) -> %d, which is not a registration", e.Prog, e.Vers, e.Netid, port)
+		}
+	}
+	for k, p := range reg {
+		if (k.prot == 6 || k.prot == 17) && !seen[k] {
+			return fmt.Sprintf("registration (%d,%d,%d) -> %d is missing from the list", k.prog, k.vers, k.prot, p)
+		}
 	}
 	return ""
 }
